@@ -199,8 +199,9 @@ pub mod fs {
     #[verifier::external_body]
     pub struct Metadata { m: u8 }
     impl Metadata {
+        pub uninterp spec fn spec_len(&self) -> nat;
         #[verifier::external_body]
-        pub fn len(&self) -> u64 { unimplemented!() }
+        pub fn len(&self) -> (r: u64) ensures r == self.spec_len() { unimplemented!() }
         #[verifier::external_body]
         pub fn is_dir(&self) -> bool { unimplemented!() }
         #[verifier::external_body]
